@@ -21,6 +21,11 @@
        one; it MUST be sent at the first Normal evaluation at which the cool-down is
        over and MAY be sent earlier; it is sent at most once;
      - nothing is ever sent for Pending;
+     - delivery may FAIL (contact point unreachable): that is an input, not something the
+       alert decides.  State and history never depend on it.  At an evaluation whose delivery
+       fails nothing can arrive, so "none" is admitted (an owed notification must have been
+       ATTEMPTED, judged separately); the ghost only records what was really delivered, so
+       the obligation stays open and must be met at the next evaluation that allows it (retry);
      - the statement says nothing about silencing: while a silence setting is in
        place every owed notification may be withheld (MUST becomes MAY); MUST-NOTs
        are unaffected and so is the state rule. *)
@@ -64,17 +69,18 @@ Adm(L, ep0, g, cool) ==
 
 (* one evaluation with outcome c at which the notification `sent` was really emitted:
    returns the new ghost, the law state and the admissible set *)
-LawEval(g, c, sent, n, cool) ==
+LawEval(g, c, sent, n, cool, fail) ==
   LET prevL == LawState(g.cs, n)
       cs2 == Append(g.cs, c)
       L == LawState(cs2, n)
       ep0 == Ep0(g, prevL, L)
-      adm == Adm(L, ep0, g, cool)
+      base == Adm(L, ep0, g, cool)
+      adm == IF fail THEN base \cup {"none"} ELSE base
       g2 == [g EXCEPT !.cs = cs2,
                       !.lastSent = IF sent # "none" THEN g.now ELSE g.lastSent,
                       !.lastKind = IF sent # "none" THEN sent ELSE g.lastKind,
                       !.epNotified = IF L = "Firing" THEN (ep0 \/ sent = "Firing") ELSE FALSE]
-  IN [g |-> g2, law |-> L, adm |-> adm]
+  IN [g |-> g2, law |-> L, adm |-> adm, owed |-> "none" \notin base]
 
 LawTick(g) == [g EXCEPT !.now = g.now + 1]
 LawSilence(g, on) == [g EXCEPT !.silenced = on]
